@@ -8,7 +8,7 @@ import keyword
 from hypothesis import strategies as st
 
 from vlib import gen
-from vlib.core import Info, Skip, Sub, fail
+from vlib.core import Info, Skip, Sub, Violation, fail
 
 PROPERTY = "C01"
 LEVEL = "exploration"
@@ -80,6 +80,15 @@ def call_specs(draw, jsonclass):
         keys = keys.filter(lambda k: k != "self" and (not jsonclass or k != "__jsonclass__"))
         params = draw(st.dictionaries(keys, values, max_size=4))
     result = draw(st.one_of(values, st.sampled_from([None, 0, 0.0, -0.0, False, "", [], {}, 2 ** 53, -(2 ** 53), 5e-324, 1e308])))
+    # aliasing: the same container object may occur twice in the arguments or in the
+    # result (replay files keep the sharing: the case is pickled as one graph)
+    alias = draw(st.integers(0, 7))
+    if alias == 0 and isinstance(params, list) and params:
+        params.append(params[draw(st.integers(0, len(params) - 1))])
+    elif alias == 0 and isinstance(params, dict) and params:
+        params["alias"] = params[sorted(params)[0]]
+    elif alias == 1:
+        result = [result, {"again": result}, result]
     return {"name": name, "kind": kind, "params": params, "result": result}
 
 
@@ -94,7 +103,9 @@ def cases(draw, sockets=False):
         c["notify"] = style == "notify" or (style.startswith("batch") and draw(st.integers(0, 3)) == 0)
         calls.append(c)
     case = {"calls": calls, "style": style, "version": draw(st.sampled_from([1.0, 2.0])), "jsonclass": jsonclass,
-            "server_version": draw(st.sampled_from([1.0, 2.0]))}
+            "server_version": draw(st.sampled_from([1.0, 2.0])),
+            # MultiCall(proxy) as in the README, or MultiCall(proxy, config)
+            "mc_config": draw(st.booleans())}
     if sockets:
         case["server"] = draw(st.integers(0, 5))
     return case
@@ -161,7 +172,7 @@ def run_case(case, make_proxy, register, captured):
     want_log = []
     try:
         if style.startswith("batch"):
-            mc = J.MultiCall(proxy, ccfg)
+            mc = J.MultiCall(proxy, ccfg) if case.get("mc_config", True) else J.MultiCall(proxy)
             for c in case["calls"]:
                 invoke(mc._notify if c["notify"] else mc, c["name"], chain, c["params"])
             results = mc()
@@ -187,7 +198,9 @@ def run_case(case, make_proxy, register, captured):
                 fail("C01/result", "call returned %r, expected %r" % (got, c["result"]), {"name": c["name"], "params": c["params"]})
     except J.ProtocolError as ex:
         fail("C01/call-raised:ProtocolError", "the call raised %r" % (ex,), {"calls": [(c["name"], c["params"]) for c in case["calls"]]})
-    except (OSError, ValueError, TypeError, KeyError, AttributeError, RecursionError, UnicodeError) as ex:
+    except (Violation, Skip):
+        raise
+    except Exception as ex:
         fail("C01/call-raised:%s" % type(ex).__name__, "the call raised %s: %s" % (type(ex).__name__, str(ex)[:200]),
              {"calls": [(c["name"], c["params"]) for c in case["calls"]]})
     for c in case["calls"]:
@@ -211,6 +224,10 @@ def run_case(case, make_proxy, register, captured):
     nt = any(gen.has_nonascii(v) or gen.depth(v) >= 2 or gen.has_falsy(v) for v in vals)
     classes = ["style:" + style, "v%.1f" % case["version"], "jsonclass:%s" % ("on" if case["jsonclass"] else "off")]
     classes += sorted(set("name:" + c["kind"] for c in case["calls"]))
+    if style.startswith("batch"):
+        classes.append("multicall:" + ("explicit-config" if case.get("mc_config", True) else "default-config"))
+    if not case["jsonclass"] and "__jsonclass__" in repr(vals):
+        classes.append("jsonclass-member-as-data")
     classes.append("params:" + ("keyword" if isinstance(case["calls"][0]["params"], dict) else "positional"))
     return nt, classes
 
